@@ -161,6 +161,9 @@ func runRabin(t *core.Tape, tier string, info *core.RunInfo) *core.Violation {
 				if t.Bool("cfg.couple", 200) {
 					p.beh["deal-share-off-poly"] = true
 				}
+				if t.Bool("cfg.couple2", 200) {
+					p.beh["commits-fit-all-but-one"] = true // the only road into complaint/reconstruct commits
+				}
 				if p.beh["deal-share-off-poly"] && t.Bool("cfg.couple", 500) {
 					p.beh[[]string{"just-missing", "just-wrong-share"}[t.Intn("cfg.couple", 2)]] = true
 				}
@@ -531,7 +534,18 @@ func runRabin(t *core.Tape, tier string, info *core.RunInfo) *core.Violation {
 						info.ByzFired("commits-missing")
 						continue
 					}
-					if p.beh["commits-fit-all-but-one"] && n-2 <= th-1 && n >= 3 {
+					honestOthers := 0
+					for _, q := range ps {
+						if q.honest() && q.id != p.id && !q.dead(4) {
+							honestOthers++
+						}
+					}
+					// either the perturbation fits the degree (t >= n-1), or - the number of published
+					// commitments is not compared with t - it is of higher degree and there are enough
+					// honest parties left (t besides the victim) to answer the victim's complaint with
+					// t reconstruct-commits, so that the reconstruction path runs to its end (seed C11i:
+					// that path revealed the blinding share instead of the secret share)
+					if p.beh["commits-fit-all-but-one"] && (n-2 <= th-1 || honestOthers-1 >= th) && n >= 3 {
 						// F' = F + c*prod_{j != victim, j != me}(x - x_j): same degree, fits every other
 						// participant's share, misses exactly one honest participant's share
 						victim := -1
@@ -558,8 +572,11 @@ func runRabin(t *core.Tape, tier string, info *core.RunInfo) *core.Violation {
 								}
 								poly = nx
 							}
-							if len(poly) <= len(sc.Commitments) {
+							if len(poly) <= len(sc.Commitments) || honestOthers-1 >= th {
 								sc = copyRabinMsg(sc).(*rdkg.SecretCommits)
+								for len(sc.Commitments) < len(poly) {
+									sc.Commitments = append(sc.Commitments, g.Point().Null())
+								}
 								cst := kit.ScalarFromTape(g, t, "byz.val")
 								for k, c := range poly {
 									term := g.Point().Mul(g.Scalar().Mul(cst, kit.BigScalar(g, c)), nil)
